@@ -8,7 +8,7 @@ ZA    == ZApex @@ (<<"a", "A">> :> R(600, {<<1>>}))
 ZC    == ZApex @@ (<<"a", "CNAME">> :> R(300, {<<1>>})) @@ (<<"a", "NSEC">> :> R(300, {<<1>>}))
 ZW    == (<<"@", "SOA">> :> R(300, {<<65535, 65535>>})) @@ (<<"@", "NS">> :> R(300, {<<1>>}))
            @@ (<<"b.a", "A">> :> R(300, {<<1>>, <<2>>})) @@ (<<"b.a", "RRSIG/A">> :> R(300, {<<1>>}))
-MCInitZones == {ZApex, ZA, ZC, ZW}
+MCInitZones == {ZApex, ZA, ZC, ZW, <<>>}
 MCSerials == {<<0, 1>>, <<32768, 0>>}
 MCSerialArgs == {[neg |-> FALSE, value |-> <<0, 1>>, relative |-> TRUE],
                  [neg |-> FALSE, value |-> <<32767, 65535>>, relative |-> TRUE],
